@@ -145,6 +145,27 @@ class C04Stream(M.MatStream):
                                         f"but its preference {v} yields target {t}" + (" [same-priority sibling with bounds]" if sibling else ""),
                                 "finding": F8 if sibling else None})
                     break
+        # (3b) the same on the report of the OBSERVED state: whatever the target in force is and whoever chose it,
+        #      adjust_to_bounds(v) on the report for an actor's priority says "unchanged" iff v, proposed by that actor, is adopted
+        by_prio = {st["prio"]: st for st in obs.get("status", [])}
+        for k, a in enumerate(order):
+            st = by_prio.get(a["prio"])
+            if st is None or out:
+                continue
+            above = order[:k]
+            sibling = any(p["prio"] == a["prio"] and (p["lo"] is not None or p["hi"] is not None) for p in above)
+            for v, adj in zip(obs.get("probes", []), st["adjust"]):
+                Hv = above + [{**a, "pref": v}]
+                _, _, okv = ideal(s, Hv)
+                if not okv:
+                    continue
+                t = fresh_target(s, Hv)
+                if (adj == [v, v]) != (t == v):
+                    out.append({"what": f"report-in-state: target in force {obs['stored']}; the report for priority {a['prio']} has bounds {st['bounds']} and "
+                                        f"adjust_to_bounds({v}) = {adj}, but actor {a['src']} proposing {v} yields target {t}"
+                                        + (" [same-priority sibling with bounds]" if sibling else ""),
+                                "finding": F8 if sibling else None})
+                    break
         return out
 
 
